@@ -152,10 +152,14 @@ Proof.
   split.
   { eapply edge_ok_eq; [|exact B4]. apply Fe; [|rewrite <- B2; exact He]. rewrite leids_eq. rewrite <- B2. eapply in_seids_here. exact Hbin. }
   destruct (Nat.eq_dec j js) as [->|Hjne].
-  - rewrite Hjs in Hb. injection Hb as -> -> ->. rewrite <- B2. eapply (IH _ Hs); try eassumption.
+  - rewrite Hjs in Hb. injection Hb as -> -> ->. rewrite <- B2. apply (IH _ Hs (Some (i, e)) p sub).
+    + rewrite B2. exact B5.
     + exact (NoDup_flat_map_in _ _ _ Hnd Hs).
     + pose proof (NoDup_flat_map_in _ _ _ Hned Hs) as Hd. cbn in Hd. apply NoDup_cons_iff in Hd. exact (proj2 Hd).
-    + rewrite B2. exact Hin.
+    + exact Hin.
+    + exact Hx.
+    + exact Hnewid.
+    + exact Snew.
     + intros y Hy Hy'. apply Fn; [eapply in_lids_child; eassumption|exact Hy'].
     + intros y Hy Hy'. apply Fe; [eapply in_leids_child; eassumption|exact Hy'].
   - assert (Hdisj : forall y, In y (lids ch) -> ~ In y (lids chs)).
@@ -166,4 +170,89 @@ Proof.
     eapply shape_frame; [| |exact B5].
     + intros y Hy. apply Fn; [eapply in_lids_child; eassumption|]. intros Hy'. exact (Hdisj y Hy (Hsubn y Hy')).
     + intros y Hy. apply Fe; [eapply in_leids_child; eassumption|]. intros Hy'. exact (Hdisje y Hy (Hsube y Hy')).
+Qed.
+
+Lemma lnup_map_replace f sl : lnup (map (lreplace_slot f) sl) = lnup sl.
+Proof. unfold lnup. induction sl as [|[[[e ei] ch]|] sl IH]; cbn; [reflexivity|exact IH|f_equal; exact IH]. Qed.
+
+Lemma lreplace_lwf_sub x new : lwf_sub new -> forall lt, lwf_sub lt -> lwf_sub (lreplace x new lt).
+Proof.
+  intros Hnew. induction lt as [i n c sl IH] using ltree_ind'. intros W. rewrite lreplace_eq.
+  destruct (Nat.eqb i x); [exact Hnew|]. apply lwf_sub_iff in W. destruct W as [W1 W2]. apply lwf_sub_iff.
+  split; [rewrite lnup_map_replace; exact W1|]. intros e ei ch Hin. apply in_map_iff in Hin.
+  destruct Hin as [[[[e' ei'] ch']|] [E Hin]]; [|discriminate]. cbn in E. injection E as <- <- <-.
+  rewrite Forall_forall in IH. apply (IH _ Hin). exact (W2 _ _ _ Hin).
+Qed.
+
+Lemma lreplace_lwf_root x new lt : lwf lt -> (lid lt = x -> lwf new) -> (lid lt <> x -> lwf_sub new) ->
+  lwf (lreplace x new lt).
+Proof.
+  intros W H1 H2. destruct lt as [i n c sl]. rewrite lreplace_eq. cbn [lid] in *.
+  destruct (Nat.eqb_spec i x) as [E|E]; [exact (H1 E)|]. apply lwf_iff in W. destruct W as [W1 W2]. apply lwf_iff.
+  split; [rewrite lnup_map_replace; exact W1|]. intros e ei ch Hin. apply in_map_iff in Hin.
+  destruct Hin as [[[[e' ei'] ch']|] [E' Hin]]; [|discriminate]. cbn in E'. injection E' as <- <- <-.
+  apply lreplace_lwf_sub; [exact (H2 E)|exact (W2 _ _ _ Hin)].
+Qed.
+
+Lemma lsubs_head : forall lt prev p sub, NoDup (lids lt) -> In (p, sub) (lsubs prev lt) -> lid sub = lid lt ->
+  (p, sub) = (prev, lt).
+Proof.
+  intros [i n c sl] prev p sub Hnd Hin Hl. rewrite lsubs_eq in Hin. destruct Hin as [E|Hin]; [symmetry; exact E|]. exfalso.
+  rewrite lids_eq in Hnd. apply NoDup_cons_iff in Hnd. apply (proj1 Hnd). cbn [lid] in Hl. rewrite <- Hl.
+  apply in_flat_map in Hin. destruct Hin as [s [Hs Hin]]. destruct s as [[[e ei] ch]|]; [|destruct Hin].
+  eapply in_sids; [exact Hs|]. eapply lsubs_in_lids. exact Hin.
+Qed.
+
+(** * a represented heap after a local change *)
+Theorem Rep_replace h h' lt x p sub new :
+  Rep h lt -> In (p, sub) (lsubs None lt) -> lid sub = x -> lid new = x ->
+  shape true h' p new ->
+  (forall n, In n (lids lt) -> ~ In n (lids sub) -> alookup n (hnodes h') = alookup n (hnodes h)) ->
+  (forall e, In e (leids lt) -> ~ In e (leids sub) -> alookup e (hedges h') = alookup e (hedges h)) ->
+  (lwf sub -> lwf new) -> (lwf_sub sub -> lwf_sub new) ->
+  hroot h' = hroot h ->
+  NoDup (lids new) -> (forall y, In y (lids new) -> In y (lids sub) \/ ~ In y (lids lt)) ->
+  NoDup (leids new) -> (forall y, In y (leids new) -> In y (leids sub) \/ ~ In y (leids lt)) ->
+  (forall y, alookup y (hnodes h') <> None <-> In y (lids new) \/ (In y (lids lt) /\ ~ In y (lids sub))) ->
+  (forall y, alookup y (hedges h') <> None <-> In y (leids new) \/ (In y (leids lt) /\ ~ In y (leids sub))) ->
+  (forall y, alookup y (hnodes h') <> None -> y < hnextn h') ->
+  (forall y, alookup y (hedges h') <> None -> y < hnexte h') ->
+  Rep h' (lreplace x new lt).
+Proof.
+  intros R Hin Hx Hnx Snew Fn Fe W1 W2 Hroot Nn Cn Ne Ce Dn De Frn Fre.
+  destruct (lreplace_perm x new lt None p sub (rep_nd _ _ R) Hin Hx) as (rn & re & P1 & P2 & P3 & P4).
+  pose proof (Permutation_NoDup P1 (rep_nd _ _ R)) as Nd1. apply NoDup_app_iff in Nd1. destruct Nd1 as (Na & Nb & Nc).
+  pose proof (Permutation_NoDup P3 (rep_ned _ _ R)) as Nd3. apply NoDup_app_iff in Nd3. destruct Nd3 as (Ea & Eb & Ec).
+  assert (Hrn : forall y, In y rn <-> In y (lids lt) /\ ~ In y (lids sub)).
+  { intros y. split.
+    - intros Hy. split; [eapply Permutation_in; [symmetry; exact P1|apply in_or_app; right; exact Hy]|]. intros Hy'. exact (Nc y Hy' Hy).
+    - intros [Hy Hy']. apply (Permutation_in _ P1) in Hy. apply in_app_or in Hy. destruct Hy; [contradiction|assumption]. }
+  assert (Hre : forall y, In y re <-> In y (leids lt) /\ ~ In y (leids sub)).
+  { intros y. split.
+    - intros Hy. split; [eapply Permutation_in; [symmetry; exact P3|apply in_or_app; right; exact Hy]|]. intros Hy'. exact (Ec y Hy' Hy).
+    - intros [Hy Hy']. apply (Permutation_in _ P3) in Hy. apply in_app_or in Hy. destruct Hy; [contradiction|assumption]. }
+  assert (In1 : forall y, In y (lids (lreplace x new lt)) <-> In y (lids new) \/ In y rn).
+  { intros y. split; intros Hy.
+    - apply (Permutation_in _ P2) in Hy. apply in_app_or in Hy. exact Hy.
+    - eapply Permutation_in; [symmetry; exact P2|]. apply in_or_app. exact Hy. }
+  assert (In2 : forall y, In y (leids (lreplace x new lt)) <-> In y (leids new) \/ In y re).
+  { intros y. split; intros Hy.
+    - apply (Permutation_in _ P4) in Hy. apply in_app_or in Hy. exact Hy.
+    - eapply Permutation_in; [symmetry; exact P4|]. apply in_or_app. exact Hy. }
+  constructor.
+  - rewrite Hroot, (rep_root _ _ R). symmetry. apply lid_lreplace. exact Hnx.
+  - eapply lreplace_shape; try eassumption; [exact (rep_shape _ _ R)|exact (rep_nd _ _ R)|exact (rep_ned _ _ R)].
+  - apply lreplace_lwf_root; [exact (rep_wf _ _ R)| |].
+    + intros E. apply W1. rewrite <- Hx in E. symmetry in E.
+      pose proof (lsubs_head lt None p sub (rep_nd _ _ R) Hin E) as E2. injection E2 as _ ->. exact (rep_wf _ _ R).
+    + intros E. apply W2. destruct (lwf_sub_lsubs lt None p sub (or_introl (rep_wf _ _ R)) Hin) as [E2|Hw]; [|exact Hw].
+      injection E2 as _ ->. congruence.
+  - eapply Permutation_NoDup; [symmetry; exact P2|]. apply NoDup_app_iff. repeat split; [exact Nn|exact Nb|].
+    intros y Hy Hy'. apply Hrn in Hy'. destruct Hy' as [Y1 Y2]. destruct (Cn y Hy); contradiction.
+  - eapply Permutation_NoDup; [symmetry; exact P4|]. apply NoDup_app_iff. repeat split; [exact Ne|exact Eb|].
+    intros y Hy Hy'. apply Hre in Hy'. destruct Hy' as [Y1 Y2]. destruct (Ce y Hy); contradiction.
+  - intros y. rewrite In1, Hrn, Dn. reflexivity.
+  - intros y. rewrite In2, Hre, De. reflexivity.
+  - intros y Hy. apply Frn. apply Dn. apply In1 in Hy. rewrite Hrn in Hy. exact Hy.
+  - intros y Hy. apply Fre. apply De. apply In2 in Hy. rewrite Hre in Hy. exact Hy.
 Qed.
